@@ -1149,40 +1149,29 @@ def randcap(nrand, ra, dec, rad, get_radius=False, dorot=False, rng=None):
         # generate position angle uniformly 0, 2*PI
         rand_posangle = rng.uniform(low=0, high=2 * PI, size=nrand)
 
-        theta = np.array(dec, dtype="f8", ndmin=1, copy=True)
-        phi = np.array(ra, dtype="f8", ndmin=1, copy=True)
-        theta += 90
-
-        np.deg2rad(theta, theta)
-        np.deg2rad(phi, phi)
-
-        sintheta = sin(theta)
-        costheta = cos(theta)
+        # The point at angular distance rand_r and position angle
+        # rand_posangle from the centre, as a unit vector built from the
+        # centre and its local south/west directions.  (Solving the spherical
+        # triangle with arccos instead loses ~1e-6 degree for small caps and
+        # near the centre, its antipode and the poles.)
+        delta = np.deg2rad(float(dec))
+        alpha = np.deg2rad(float(ra))
+        sd, cd = sin(delta), cos(delta)
+        sa, ca = sin(alpha), cos(alpha)
 
         sinr = sin(rand_r)
         cosr = cos(rand_r)
 
-        cospsi = cos(rand_posangle)
-        costheta2 = costheta * cosr + sintheta * sinr * cospsi
+        # position angle zero points south, increasing toward the west
+        tnorth = -sinr * cos(rand_posangle)
+        teast = -sinr * sin(rand_posangle)
 
-        np.clip(costheta2, -1, 1, costheta2)
+        x = cosr * cd * ca - tnorth * sd * ca - teast * sa
+        y = cosr * cd * sa - tnorth * sd * sa + teast * ca
+        z = cosr * sd + tnorth * cd
 
-        # gives [0,pi)
-        theta2 = arccos(costheta2)
-        sintheta2 = sin(theta2)
-
-        cosDphi = (cosr - costheta * costheta2) / (sintheta * sintheta2)
-
-        np.clip(cosDphi, -1, 1, cosDphi)
-        Dphi = arccos(cosDphi)
-
-        # note fancy usage of where
-        phi2 = np.where(rand_posangle > PI, phi + Dphi, phi - Dphi)
-
-        np.rad2deg(phi2, phi2)
-        np.rad2deg(theta2, theta2)
-        rand_ra = phi2
-        rand_dec = theta2 - 90.0
+        rand_ra = np.rad2deg(arctan2(y, x))
+        rand_dec = np.rad2deg(arctan2(z, sqrt(x * x + y * y)))
 
         atbound(rand_ra, 0.0, 360.0)
 
